@@ -134,6 +134,8 @@ def cases(tier):
         yield ('Pescape', i)
     for i in range(len(PMODIFY)):
         yield ('Pmodify', i)
+    for i in range(len(PNOTDIR)):
+        yield ('Pnotdir', i)
     nt = len(trees(tier))
     for ti in range(nt):
         for oi in range(len(OPTIONS)):
@@ -156,6 +158,8 @@ def run(case) -> Result:
         return _pescape(res, case)
     if case[0] == 'Pmodify':
         return _pmodify(res, case)
+    if case[0] == 'Pnotdir':
+        return _pnotdir(res, case)
     return _match(res, case)
 
 
@@ -350,6 +354,30 @@ def _pmodify(res, case):
     if o.ident != 'HARD_ERROR' or o.rc != 128:
         res.violation(case, ['`%s` where d/l is a link to a file the OS does not allow to be written (/proc/version): expected HARD_ERROR, got %s / %s' % (
             instr.replace('\n', ' '), o.ident, ' / '.join(cli.stderr_lines(o.err)[-2:])[:300])], {'file': text})
+    return res
+
+
+# a name whose non-final component is an existing REGULAR FILE: the instruction fails with HARD_ERROR (plain instructions, lists, nested += lists)
+PNOTDIR = ["file a\ndir a/b", "file a\nfile a/b", "file a\ndir a/b = {\n file c\n}", "file a\nfile a/b/c = 'x'", "dir d = {\n file a\n}\ndir d/a/b",
+           "dir d = {\n file a\n}\ndir d += {\n dir a/b\n}", "dir s = {\n file f\n}\ndir s += {\n file f/g = 'x'\n}", "dir d = {\n file a\n}\nfile d/a/b",
+           "dir d = {\n file a\n dir sub\n}\ndir d += {\n dir sub += {\n  file ../a/x\n }\n}", "file a\ncopy -rel-act a a/b"]
+
+
+def _pnotdir(res, case):
+    instr = PNOTDIR[case[1]]
+    w = world.get()
+    w.reset()
+    seam = procseam.SEAM
+    seam.reset()
+    text = '[setup]\n' + instr + '\n[act]\n'
+    o = cli.run_case(text)
+    res.n += 1
+    res.nontrivial += 1
+    res.outcomes[('Pnotdir', o.ident)] += 1
+    ok = (o.ident == 'HARD_ERROR' and o.rc == 128) or (o.ident == 'VALIDATION_ERROR' and '..' in instr)
+    if not ok:
+        res.violation(case, ['`%s`: a component of the name is an existing regular file: expected HARD_ERROR, got %s / %s' % (
+            instr.replace('\n', ' ; '), o.ident, ' / '.join(cli.stderr_lines(o.err)[-2:])[:300])], {'file': text})
     return res
 
 
